@@ -526,7 +526,9 @@ class Part(object):
                     normal_dur *= 4 / ts.beat_type
                 if musical_beat:
                     normal_dur = ts.musical_beats
-                if actual_dur < normal_dur:
+                # compare with a tolerance: durations in musical beats are
+                # computed in floating point (e.g. thirds in 6/8)
+                if actual_dur < normal_dur and not np.isclose(actual_dur, normal_dur):
                     y -= actual_dur
             else:
                 # warn
